@@ -443,6 +443,77 @@ theorem mkObj_eq_objectOf (cfg : Cfg) (ms : List (Bytes × JV)) :
   simp only [objectOf, specCfg, specKeys]
   rfl
 
+/-! ## readable consequences (used by `Props/C02Map.lean`) -/
+
+/-- the distinct elements of a list in order of first occurrence -/
+def firstOccurrences : List Bytes → List Bytes
+  | [] => []
+  | k :: r => k :: (firstOccurrences r).filter (· != k)
+
+theorem distinctKeys_eq_firstOccurrences (ms : List (Bytes × JV)) (seen : List Bytes) :
+    distinctKeys ms seen = seen.reverse ++ (firstOccurrences (keys ms)).filter (fun k => !seen.contains k) := by
+  induction ms generalizing seen with
+  | nil => simp [distinctKeys, keys, firstOccurrences]
+  | cons kv r ih =>
+    obtain ⟨k, v⟩ := kv
+    simp only [distinctKeys, keys, List.map_cons, firstOccurrences]
+    split
+    · rename_i h
+      rw [ih, List.filter_cons]
+      simp only [h, Bool.not_true, Bool.false_eq_true, if_false, List.filter_filter, keys]
+      congr 1
+      apply List.filter_congr
+      intro x _
+      by_cases hx : x = k
+      · subst hx; simpa using h
+      · simp [hx]
+    · rename_i h
+      rw [ih, List.filter_cons]
+      simp only [h, Bool.not_false, if_true, List.filter_filter, keys, List.reverse_cons,
+        List.append_assoc, List.singleton_append]
+      congr 2
+      apply List.filter_congr
+      intro x _
+      by_cases hx : x = k
+      · subst hx; simp
+      · simp [hx]
+
+theorem distinctKeys_nil (ms : List (Bytes × JV)) :
+    distinctKeys ms [] = firstOccurrences (keys ms) := by
+  rw [distinctKeys_eq_firstOccurrences]
+  simp [List.filter_eq_self]
+
+theorem find_eq_lookup (k : Bytes) (m : List (Bytes × JV)) : find k m = m.lookup k := by
+  induction m with
+  | nil => rfl
+  | cons kv r ih =>
+    obtain ⟨k', v⟩ := kv
+    simp only [find, List.lookup_cons, ih]
+    by_cases h : k' = k
+    · subst h; simp
+    · have : (k == k') = false := by simpa using Ne.symm h
+      simp [h, this]
+
+theorem lookupLast_of_last (k : Bytes) (v : JV) (pre post : List (Bytes × JV)) (h : k ∉ keys post) :
+    lookupLast k (pre ++ (k, v) :: post) = some v := by
+  have aux : ∀ (post : List (Bytes × JV)) (acc : Option JV), k ∉ keys post →
+      post.foldl (fun acc kv => if kv.1 = k then some kv.2 else acc) acc = acc := by
+    intro post
+    induction post with
+    | nil => intros; rfl
+    | cons kv r ih =>
+      intro acc hk
+      simp only [keys, List.map_cons, List.mem_cons, not_or] at hk
+      simp only [List.foldl_cons, if_neg (Ne.symm hk.1)]
+      exact ih _ hk.2
+  simp only [lookupLast, List.foldl_append, List.foldl_cons, if_true]
+  exact aux post _ h
+
+theorem mem_keys_build (cfg : Cfg) (ms : List (Bytes × JV)) (k : Bytes) :
+    k ∈ keys (build cfg ms) ↔ k ∈ keys ms := by
+  rw [keys_build, specKeys]
+  cases cfg.po <;> simp [mem_sortKeys, mem_distinctKeys]
+
 /-! ## `canonM = canon` -/
 
 mutual
